@@ -389,6 +389,8 @@ B, S = True, False
 # (name, mode override or None, prelude, world kwargs)
 SEED_BOOKS = {
     "empty": [],
+    # a plain two-sided quote, never traded (market price follows the mid)
+    "two_sided_no_trade": [L(B, 98, 1), L(S, 102, 1)],
     # three-level two-sided book
     "deep": [L(B, 99, 1), L(B, 99, 2), L(B, 98, 1), L(S, 101, 1), L(S, 101, 2), L(S, 102, 1)],
     # one-sided ladders whose arrival order makes the heap array non-sorted (witness for a missing
